@@ -19,6 +19,7 @@ type universal struct {
 	env   Env // captured evaluation context (heap snapshots included)
 	done  map[string]bool
 	gen   func(s *State, chosen []string) string // programmatic body (engine-generated universals)
+	alloc string                                 // allocation frontier when the clause was assumed
 }
 
 func (s *State) cloneUniv() []*universal {
@@ -88,7 +89,12 @@ func (s *State) instantiate(u *universal) {
 			}
 			env.vars = vars
 			s.noTrig = true
+			saved := s.alloc
+			if u.alloc != "" {
+				s.alloc = u.alloc // closure facts about the frozen heap use the frontier of that time
+			}
 			t := env.evalBool(u.body)
+			s.alloc = saved
 			s.noTrig = false
 			s.assume(t)
 			return
@@ -107,7 +113,7 @@ func (env *Env) assumeClause(c Clause) {
 		env.s.assume(env.evalBool(c.Expr))
 		return
 	}
-	u := &universal{vars: c.Forall, body: c.Expr, done: map[string]bool{}}
+	u := &universal{vars: c.Forall, body: c.Expr, done: map[string]bool{}, alloc: env.s.alloc}
 	for _, v := range c.Forall {
 		t := env.resolveTypeStr(v.Type)
 		ls := leavesOf(t)
